@@ -90,7 +90,7 @@ enum Setter {
 fn random_setter(rng: &mut Rng) -> Setter {
     let name = || -> &'static str { "" };
     let _ = name;
-    let names = ["X-A", "x-a", "X-a", "X-B", "Accept", "User-Agent", "accept", "Cookie"];
+    let names = ["X-A", "x-a", "X-a", "X-B", "Accept", "User-Agent", "accept", "Cookie", "Accept-Encoding", "accept-encoding"];
     let values: [&[u8]; 4] = [b"1", b"2", b"3", b"v v"];
     match rng.below(16) {
         0 | 1 | 2 => Setter::Header(rng.pick(&names).to_string(), rng.pick(&values).to_vec()),
